@@ -116,6 +116,15 @@ def replay(cigar, query, target):
             qi += n
             ti += n
             cost += MISMATCH * n
+        elif o == "M":
+            # SAM 'M': an alignment column, match or mismatch (input CIGARs of aligners that do not use =/X)
+            if qi + n > len(query) or ti + n > len(target):
+                return False, f"'M' run of {n} at query {qi} / path {ti} overruns", None
+            eq = sum(1 for k in range(n) if query[qi + k] == target[ti + k])
+            matches += eq
+            cost += MISMATCH * (n - eq)
+            qi += n
+            ti += n
         elif o == "I":
             qi += n
             cost += GAP_EXT * n + (GAP_OPEN if prev != "I" else 0)
@@ -180,6 +189,11 @@ def make_read_record(g, rng, walk, name, tags="safe", max_span=None, min_span=1,
     cg = cigar_str(in_ops)
     matches = sum(n for n, o in in_ops if o == "=")
     block = sum(n for n, _o in in_ops)
+    if all(o in "=X" for _n, o in ops) and ops and rng.random() < 0.25:
+        # an aligner that writes only 'M' columns and reports the number of aligned columns as matches
+        block = sum(n for n, _o in ops)  # (the true, unfragmented alignment: columns only)
+        cg = f"{block}M"
+        matches = block
     cols = [name, str(len(read)), str(qs), str(qe), "+", rgfa.path_str(walk), str(L), str(ps), str(pe),
             str(matches), str(block), str(rng.choice([60, 60, 0, 13]))]
     if tags == "safe":
